@@ -9,7 +9,7 @@ from common import *
 import gen, pipeline, model, findings as F, oracle
 from props import base
 
-PROPS_MODULES = ["ShexerModel.Props.C09"]
+PROPS_MODULES = ["ShexerModel.Props.C09", "ShexerModel.Props.C09b"]
 DEPS = []
 replay = base.replay
 
